@@ -122,7 +122,22 @@ func (r *renderer) date(ms int64) {
 // split n items into chunk lengths: canonical = one final chunk (or the 65535-limited split)
 func (r *renderer) split(n, max int) []int {
 	var parts []int
-	switch r.pick(4) {
+	switch r.pick(6) {
+	case 4: // any composition: lengths going up and down, zeros in the middle
+		for len(parts) < 7 && n > 1 {
+			k := r.ch.intn(min(n, 5))
+			parts = append(parts, k)
+			n -= k
+		}
+	case 5: // a valley: long, short, long again (a reader that reuses its buffer must re-extend it)
+		if n >= 5 {
+			a := 2 + r.ch.intn(2)
+			b := r.ch.intn(a)
+			if a+b+a <= n {
+				parts = append(parts, a, b)
+				n -= a + b
+			}
+		}
 	case 0: // as few chunks as possible
 	case 1: // two chunks at a random point (the second may be longer than the first)
 		if n >= 2 {
